@@ -921,12 +921,12 @@ def _dict_display_loops(fdef):
             ok = True
             for u in loads.get(nm, []):
                 p = parent.get(id(u))
-                if isinstance(p, ast.For) and p.iter is u:
+                if isinstance(p, (ast.For, ast.comprehension)) and p.iter is u:
                     continue
                 if isinstance(p, ast.Attribute) and p.value is u and p.attr in ("items", "keys", "values"):
                     pc = parent.get(id(p))
                     pf = parent.get(id(pc))
-                    if isinstance(pc, ast.Call) and pc.func is p and not pc.args and not pc.keywords and isinstance(pf, ast.For) and pf.iter is pc:
+                    if isinstance(pc, ast.Call) and pc.func is p and not pc.args and not pc.keywords and isinstance(pf, (ast.For, ast.comprehension)) and pf.iter is pc:
                         continue
                 if isinstance(p, ast.Subscript) and p.value is u and isinstance(p.ctx, ast.Load) and isinstance(p.slice, ast.Constant) \
                         and p.slice.value in [k.value for k in st.value.keys]:
@@ -941,6 +941,9 @@ def _dict_display_loops(fdef):
         return
 
     class T(ast.NodeTransformer):
+        def visit_comprehension(self, node):
+            return self.visit_For(node)
+
         def visit_For(self, node):
             self.generic_visit(node)
             it = node.iter
@@ -1566,6 +1569,25 @@ class Normalizer:
                 ast.fix_missing_locations(new)
                 return [new]
             return [st]
+        if isinstance(st, ast.For) and not st.orelse and isinstance(st.iter, ast.Call) and not st.iter.keywords and len(st.iter.args) <= 1 \
+                and ast.unparse(st.iter.func) in ("itertools.count", "count") and isinstance(st.target, ast.Name) \
+                and all(isinstance(a_, ast.Constant) and isinstance(a_.value, int) for a_ in st.iter.args):
+            # N34: for v in itertools.count(k): B   ->   v = k; while True: B; v += 1     (no `continue` in B, v not re-bound in B)
+            v = st.target.id
+            has_continue = any(isinstance(x, ast.Continue) for s_ in st.body for x in ast.walk(s_))
+            rebound = any(isinstance(x, ast.Name) and x.id == v and isinstance(x.ctx, (ast.Store, ast.Del)) for s_ in st.body for x in ast.walk(s_))
+            if not has_continue and not rebound:
+                init = ast.Assign(targets=[ast.Name(id=v, ctx=ast.Store())], value=ast.Constant(value=st.iter.args[0].value if st.iter.args else 0), type_comment=None)
+                inc = ast.AugAssign(target=ast.Name(id=v, ctx=ast.Store()), op=ast.Add(), value=ast.Constant(value=1))
+                loop = ast.While(test=ast.Constant(value=True), body=list(st.body) + [inc], orelse=[])
+                for o in (init, loop, inc):
+                    ast.copy_location(o, st)
+                    ast.fix_missing_locations(o)
+                self.lowered.append((state["caller"], getattr(st, "lineno", 0), "itertools-count"))
+                out = []
+                for s_ in (init, loop):
+                    out += self._stmt(s_, modname, cname, stack, state)
+                return out
         if isinstance(st, ast.For) and st.orelse:
             low = self._for_else(st, state)
             if low is not None:
@@ -2233,6 +2255,11 @@ class Normalizer:
     def _const_display(self, it, modname, cname, local_displays=None):
         if isinstance(it, (ast.List, ast.Tuple)):
             return it
+        if isinstance(it, ast.Call) and isinstance(it.func, ast.Name) and it.func.id == "range" and len(it.args) == 1 and not it.keywords \
+                and isinstance(it.args[0], ast.Constant) and isinstance(it.args[0].value, int) and not isinstance(it.args[0].value, bool) \
+                and 0 < it.args[0].value <= 4:
+            # range(3): the three indices (a small literal count only)
+            return ast.List(elts=[ast.Constant(value=i_) for i_ in range(it.args[0].value)], ctx=ast.Load())
         if isinstance(it, ast.Name) and local_displays and it.id in local_displays:
             return local_displays[it.id]
         if isinstance(it, ast.Call) and isinstance(it.func, ast.Name) and it.func.id == "zip" and len(it.args) >= 2 and not it.keywords:
@@ -2294,7 +2321,14 @@ class Normalizer:
                     return node
                 binds = [_const_binding(g.target, e) for e in disp.elts]
                 if any(b is None for b in binds):
-                    return node
+                    # items that are plain names / constant paths (not bound by the comprehension itself) take the place of the loop variables too
+                    bound_here = {x.id for x in ast.walk(g.target) if isinstance(x, ast.Name)}
+                    binds = []
+                    for e in disp.elts:
+                        pairs = _flat_pairs(g.target, e)
+                        if not pairs or not all(_is_const(v) or _stable_path(v) or (isinstance(v, ast.Name) and v.id not in bound_here) for _, v in pairs):
+                            return node
+                        binds.append(dict(pairs))
                 if isinstance(node, ast.DictComp):
                     ks = [_ConstSub(b).visit(copy.deepcopy(node.key)) for b in binds]
                     vs = [_ConstSub(b).visit(copy.deepcopy(node.value)) for b in binds]
